@@ -363,21 +363,50 @@ func rc4All(c *vf.Ctx) {
 			return fmt.Sprintf("NewRC4WithKey(%d zero bytes): panicked=%v %s %s, cipher=%v err=%v; want nil cipher and an error", n, pan, msg, where, r != nil, err)
 		})
 	}
+	// the key is the caller's: whatever the cipher does with ITS copy (Reset wipes it), the slice handed to
+	// NewRC4WithKey reads the same afterwards, and a second cipher made from it is RC4 under that key
+	for _, key := range [][]byte{{1, 2, 3, 4, 5}, bytes.Repeat([]byte{0xA7}, 16), {0x80}} {
+		mine := append([]byte{}, key...)
+		var second []byte
+		pan, msg, where := vf.Try(func() {
+			r1, _ := rc4.NewRC4WithKey(mine)
+			b := make([]byte, 8)
+			r1.XORKeyStream(b, b)
+			r1.Reset()
+			r2, err := rc4.NewRC4WithKey(mine)
+			if err == nil && r2 != nil {
+				second = make([]byte, 16)
+				r2.XORKeyStream(second, second)
+			}
+		})
+		c.Case([]byte("rc4.key-is-callers"), key)
+		c.Check("C12/rc4/Reset/leaves-the-callers-key-slice-alone", !pan && bytes.Equal(mine, key), func() string {
+			return fmt.Sprintf("key %s given to NewRC4WithKey; after XORKeyStream and Reset the caller's slice reads %s (panic=%v %s %s)", vf.HexS(key), vf.HexS(mine), pan, msg, where)
+		})
+		c.Check("C12/rc4/NewRC4WithKey/second-cipher-from-the-same-key-slice-after-Reset-is-standard-rc4", !pan && bytes.Equal(second, ref.RC4Keystream(key, 16)), func() string {
+			return fmt.Sprintf("key %s: cipher 1 created, used, Reset; cipher 2 created from the same slice: keystream %s, standard RC4 %s", vf.HexS(key), vf.HexS(second), vf.HexS(ref.RC4Keystream(key, 16)))
+		})
+	}
 	// disjoint but adjacent src/dst inside one backing array must be accepted and correct ("every way of splitting")
 	adjKey := []byte{1, 2, 3, 4, 5}
 	aks := ref.RC4Keystream(adjKey, rcL)
 	for k := 1; k <= rcL/2; k++ {
-		for _, order := range []string{"dst-after-src", "dst-before-src"} {
+		for _, order := range []string{"dst-after-src", "dst-before-src", "dst-after-src-spare-capacity-of-src-runs-over-dst", "dst-before-src-spare-capacity-of-dst-runs-over-src"} {
 			r, _ := rc4.NewRC4WithKey(adjKey)
 			if r == nil {
 				break
 			}
 			buf := make([]byte, 2*k)
 			var src, dst []byte
-			if order == "dst-after-src" {
+			switch order {
+			case "dst-after-src":
 				src, dst = buf[:k:k], buf[k:]
-			} else {
+			case "dst-before-src":
 				dst, src = buf[:k:k], buf[k:]
+			case "dst-after-src-spare-capacity-of-src-runs-over-dst":
+				src, dst = buf[:k], buf[k:] // the ordinary way of cutting one buffer in two: len decides, not cap
+			default:
+				dst, src = buf[:k], buf[k:]
 			}
 			copy(src, P[:k])
 			pan, msg, where := vf.Try(func() { r.XORKeyStream(dst, src) })
